@@ -149,4 +149,7 @@ def run(ck):
     ck.extra["exhaustive"] = True
     header_atoms(ck, P)
     max_dist_guard(ck, P)
+    # the gzip header CRC is part of the wrapper: each header byte enters it exactly once
+    from . import c20
+    c20.header_crc_once(ck, P)
     ck.assumptions += ["rustc MIR and const evaluation", "oracles/rfc1951.py transcribes RFC 1951", "host target only"]
